@@ -54,9 +54,17 @@ def plan(tier, seed):
             n = spaces.count_assignments(osh, ssh)
             k = max(1, n // 12)
             for i in range(k):
-                out.append({"slice": "plain:P4x3", "family": "plain", "osh": osh, "ssh": ssh, "costs": v3, "part": (i, k)})
+                # (0,1,6,1,1): a transfer dearer than a duplication plus the losses of one lifted node
+                out.append({"slice": "plain:P4x3", "family": "plain", "osh": osh, "ssh": ssh, "costs": v3 + [(0, 1, 6, 1, 1)],
+                            "part": (i, k)})
         out += L.split_plan("ordered:O3x2x2", spaces.shape_pairs(3, 2), o2, 25, {"family": "ordered", "costs": v3[:2]})
         out += L.split_plan("unordered:U3x2x3", spaces.shape_pairs(3, 2), u3, 25, {"family": "unordered", "costs": v3[:2]})
+        # three and four species leaves, one family: clades at the same depth in different halves of the species tree, so
+        # that child order decides which of two tied placements a solver visits first
+        out += L.split_plan("unordered:U3x4x1", spaces.shape_pairs(3, 4, min_sp=3), spaces.unordered_syntenies(1), 16,
+                            {"family": "unordered", "costs": v3[:2]})
+        out += L.split_plan("ordered:O3x4x1", spaces.shape_pairs(3, 4, min_sp=3), spaces.ordered_syntenies(1), 16,
+                            {"family": "ordered", "costs": v3[:1]})
         out.insert(0, {"slice": "determinism", "family": "det", "tier": "quick"})
         return out
     v5 = [core[0], core[1], core[2], core[3], core[7]]
@@ -69,7 +77,8 @@ def plan(tier, seed):
         n = spaces.count_assignments(osh, ssh)
         k = max(1, n // 12)
         for i in range(k):
-            out.append({"slice": "plain:P4x4", "family": "plain", "osh": osh, "ssh": ssh, "costs": v5, "part": (i, k)})
+            out.append({"slice": "plain:P4x4", "family": "plain", "osh": osh, "ssh": ssh,
+                        "costs": v5 + [(0, 1, 8, 1, 1), (0, 1, 6, 1, 1)], "part": (i, k)})
     out += L.split_plan("ordered:O3x3x3", spaces.shape_pairs(3, 3), o3, 20, {"family": "ordered", "costs": v5[:3]})
     out += L.split_plan("ordered:O4x3x2", spaces.shape_pairs(4, 3, min_obj=4), o2, 15, {"family": "ordered", "costs": v5[:2]})
     out += L.split_plan("unordered:U3x3x3", spaces.shape_pairs(3, 3), u3, 20, {"family": "unordered", "costs": v5[:3]})
